@@ -6,6 +6,7 @@ package c11
 import (
 	"errors"
 	"fmt"
+	"strings"
 	"testing"
 
 	"github.com/crillab/gophersat/bf"
@@ -168,6 +169,92 @@ func genShared(t *rapid.T) Case {
 	return Case{F: f}
 }
 
+// printed mimics how the library prints a formula made of variables, not, and, or.
+func printed(f *oracle.F) string {
+	switch f.Op {
+	case "var":
+		return f.Name
+	case "not":
+		return "not(" + printed(f.Kids[0]) + ")"
+	}
+	parts := make([]string, len(f.Kids))
+	for i, k := range f.Kids {
+		parts[i] = printed(k)
+	}
+	return f.Op + "(" + strings.Join(parts, ", ") + ")"
+}
+
+// genLookalike: two sub-formulas that print alike but differ, because one of them uses a variable whose *name* is
+// the printed form of a piece of the other ("a, b", "not(a)", "and(a, b)" are legal names for bf.Var). Anything that
+// identifies sub-formulas by their printed form confuses them.
+func genLookalike(t *rapid.T) Case {
+	base := []string{"a", "b", "c", "d", "e"}
+	lit := func() *oracle.F {
+		v := oracle.V(base[gen.Uniform(t, 0, len(base)-1, "v")])
+		if gen.Chance(t, 1, 3, "neg") {
+			return &oracle.F{Op: "not", Kids: []*oracle.F{v}}
+		}
+		return v
+	}
+	var tree func(depth int) *oracle.F
+	tree = func(depth int) *oracle.F {
+		f := &oracle.F{Op: rapid.SampledFrom([]string{"and", "or"}).Draw(t, "op")}
+		for i, k := 0, gen.Uniform(t, 2, 3, "arity"); i < k; i++ {
+			if depth < 2 && gen.Chance(t, 1, 4, "deeper") {
+				f.Kids = append(f.Kids, tree(depth+1))
+			} else {
+				f.Kids = append(f.Kids, lit())
+			}
+		}
+		return f
+	}
+	orig := tree(0)
+	// the twin: a deep copy with one piece replaced by a variable named like the piece's printed form
+	var nodes []*oracle.F
+	var clone func(f *oracle.F) *oracle.F
+	clone = func(f *oracle.F) *oracle.F {
+		g := &oracle.F{Op: f.Op, Name: f.Name}
+		for _, k := range f.Kids {
+			g.Kids = append(g.Kids, clone(k))
+		}
+		if g.Op != "var" {
+			nodes = append(nodes, g)
+		}
+		return g
+	}
+	twin := clone(orig)
+	at := nodes[gen.Uniform(t, 0, len(nodes)-1, "at")]
+	how := "whole"
+	if (at.Op == "and" || at.Op == "or") && (at != twin || len(at.Kids) > 2) && rapid.Bool().Draw(t, "merge") {
+		i := gen.Uniform(t, 0, len(at.Kids)-2, "first")
+		merged := oracle.V(printed(at.Kids[i]) + ", " + printed(at.Kids[i+1]))
+		at.Kids = append(append(append([]*oracle.F{}, at.Kids[:i]...), merged), at.Kids[i+2:]...)
+		how = "merge"
+	} else if at == twin {
+		// replacing the whole twin by a variable is fine too: and(a, b) against the variable "and(a, b)"
+		*at = *oracle.V(printed(at))
+	} else {
+		*at = *oracle.V(printed(at))
+	}
+	_ = how
+	g1, g2 := oracle.V("p"), oracle.V("q")
+	not := func(f *oracle.F) *oracle.F { return &oracle.F{Op: "not", Kids: []*oracle.F{f}} }
+	var f *oracle.F
+	switch rapid.IntRange(0, 4).Draw(t, "frame") {
+	case 0:
+		f = &oracle.F{Op: "and", Kids: []*oracle.F{{Op: "or", Kids: []*oracle.F{orig, g1}}, {Op: "or", Kids: []*oracle.F{twin, g2}}, not(g1), not(g2), lit()}}
+	case 1:
+		f = &oracle.F{Op: "and", Kids: []*oracle.F{{Op: "or", Kids: []*oracle.F{twin, g1}}, {Op: "or", Kids: []*oracle.F{orig, g2}}, not(g1), not(g2), not(lit())}}
+	case 2:
+		f = &oracle.F{Op: "or", Kids: []*oracle.F{{Op: "and", Kids: []*oracle.F{orig, g1}}, {Op: "and", Kids: []*oracle.F{twin, g2}}}}
+	case 3:
+		f = &oracle.F{Op: "and", Kids: []*oracle.F{{Op: "xor", Kids: []*oracle.F{orig, twin}}, lit()}}
+	default:
+		f = &oracle.F{Op: "and", Kids: []*oracle.F{{Op: "or", Kids: []*oracle.F{orig, g1}}, {Op: "or", Kids: []*oracle.F{not(twin), g1}}, {Op: "implies", Kids: []*oracle.F{g1, lit()}}}}
+	}
+	return Case{F: f}
+}
+
 // WideCase: a formula with exactly-one groups of 10..40 names. All but a dozen of its names are fixed by literals
 // conjoined at top level, so that satisfiability is decided by enumerating the free names only.
 type WideCase struct {
@@ -313,6 +400,11 @@ func checkWide(c WideCase, o *vf.Obs) error {
 }
 
 func init() {
+	vf.Register(vf.Sub[Case]{Name: "lookalike-names", Quick: 5000, Thorough: 60000, Gen: genLookalike, Check: check, Floor: 0.5,
+		Rule: "a small and/or/not formula and a twin in which one piece is replaced by a single variable whose name is that piece's printed form (\"a, b\", \"not(a)\", \"and(a, b)\": legal names for bf.Var), put side by side under disjunctions, conjunctions, xor or implications with guard variables; <= 10 names; same oracle as trees"})
+}
+
+func init() {
 	vf.Register(vf.Sub[WideCase]{Name: "wide-groups", Quick: 4000, Thorough: 60000, Gen: genWide, Check: checkWide, Floor: 0.9,
 		Classes: map[string]float64{"group>=17-names": 0.3, "sat": 0.15, "unsat": 0.15},
 		Rule:    "exactly-one groups of 10..40 names (the translation of a group changes shape with its width), alone, negated, two in a conjunction, under a disjunction, under an equivalence, contradictory pair under an implication, next to two-literal sub-formulas; all names but 2..11 are fixed by literals conjoined at top level, so satisfiability is decided exactly by enumerating the free names; same assertions as trees (names omitted by the model are completed in four fixed ways)"})
@@ -341,5 +433,5 @@ func TestProp(t *testing.T)   { vf.RunAll(t) }
 func TestReplay(t *testing.T) { vf.ReplayEnv(t) }
 
 // native fuzz targets (thorough tier): the fuzzer mutates the byte stream that rapid decodes into generator choices
-func FuzzTrees(f *testing.F) { vf.FuzzNamed(f, "C11", "trees-any-polarity") }
+func FuzzTrees(f *testing.F)  { vf.FuzzNamed(f, "C11", "trees-any-polarity") }
 func FuzzShared(f *testing.F) { vf.FuzzNamed(f, "C11", "shared-subformulas") }
